@@ -20,6 +20,9 @@ def string_sets(seed):
         SsbOpParamConstString("one line"), SsbOpParamConstString("two\nlines"), SsbOpParamConstString("a\nb\nc"),
         SsbOpParamLanguageString({"english": "single"}), SsbOpParamLanguageString({"english": "x\ny", "german": "z"}),
         SsbOpParamLanguageString({"english": "p", "french": "q\nr\ns"}),
+        # characters that str.splitlines() treats as line ends but that do not end a line of the emitted text
+        SsbOpParamConstString("sep\u2028arator"), SsbOpParamConstString("form\x0cfeed\nand a line"),
+        SsbOpParamLanguageString({"english": "v\x0bt", "german": "nel\x85\nx"}), SsbOpParamConstString("fs\x1cgs\x1d\u2029"),
     ]
     n = 0
     for s1 in strings:
